@@ -1,12 +1,12 @@
-(* C12 — (temporary, pre-repair) the scan prefix of FindEmitterSequenceGap does not isolate the target chain *)
+(* C12 — placeholder while the proofs are being rebuilt on the repaired scan prefix *)
 From Coq Require Import List ZArith Lia Bool Arith.
 From Coq Require Import Strings.Byte.
 From WH Require Import lib.Bytes lib.Digits gen.Extracted model.Vaa model.Db.
 Import ListNotations.
 Open Scope Z_scope.
 
-Example C12_emitter_prefix_refuted :
+Example C12_gap_prefix_separates_2_from_255 :
   let a := repeat x00 32 in
-  prefix_of (gap_prefix 4 a 2) (key {| i_ec := 4; i_ea := a; i_tc := 255; i_seq := 7 |}) = true.
+  prefix_of (gap_prefix 4 a 2) (key {| i_ec := 4; i_ea := a; i_tc := 255; i_seq := 7 |}) = false.
 Proof. vm_compute. reflexivity. Qed.
-Print Assumptions C12_emitter_prefix_refuted.
+Print Assumptions C12_gap_prefix_separates_2_from_255.
